@@ -538,15 +538,8 @@ func (c *Ctx) checkSelfGrantShapes() {
 	}
 	ld := modes[0]
 	n := 0
-	c.withCallees(self, 2, func(owner *ssa.Function, in ssa.Instruction, outer ssa.Instruction) {
-		st, ok := in.(*ssa.Store)
-		if !ok {
-			return
-		}
-		if f, _ := core.FieldOfAddr(st.Addr); f != pudGiven {
-			return
-		}
-		b, ok := core.Strip(st.Val).(*ssa.BinOp)
+	checkRaise := func(owner *ssa.Function, outer ssa.Instruction, st *ssa.Store, val ssa.Value, at ssa.Instruction) {
+		b, ok := core.Strip(val).(*ssa.BinOp)
 		if !ok || b.Op != token.OR {
 			return
 		}
@@ -565,7 +558,7 @@ func (c *Ctx) checkSelfGrantShapes() {
 		gO := core.BoolGuard("grant.IsOwner()", core.IsCallTo(isOwner, core.IsFieldLoad(pudGiven)), true)
 		gA := core.BoolGuard("grant.IsAdmin()", core.IsCallTo(isAdmin, core.IsFieldLoad(pudGiven)), true)
 		guarded := func(g core.Guard) bool {
-			ok, cnt := core.GuardedBy(owner, st, g)
+			ok, cnt := core.GuardedBy(owner, at, g)
 			if (!ok || cnt[0] == 0) && owner != self {
 				ok, cnt = core.GuardedBy(self, outer, g)
 			}
@@ -579,6 +572,21 @@ func (c *Ctx) checkSelfGrantShapes() {
 			r.Check(guarded(gA) || guarded(gO), "C07.8-self-grant-shapes", construct+" [requested mode without D: admin]", c.pos(st), "", "a subscriber without admin rights can raise their own grant")
 		default:
 			r.Fail("C07.8-self-grant-shapes", construct, c.pos(st), "the user's own grant is raised by a value that is neither the requested mode (owner) nor the requested mode without the delete bit (admin)")
+		}
+	}
+	c.withCallees(self, 2, func(owner *ssa.Function, in ssa.Instruction, outer ssa.Instruction) {
+		st, ok := in.(*ssa.Store)
+		if !ok {
+			return
+		}
+		if f, _ := core.FieldOfAddr(st.Addr); f != pudGiven {
+			return
+		}
+		// the raise may be computed in a local first (`newGiven |= x; ...; rec.modeGiven = newGiven`)
+		for _, vs := range virtualStores(owner, pudGiven) {
+			if vs.St == st {
+				checkRaise(owner, outer, st, vs.Val, vs.At)
+			}
 		}
 	})
 	r.Check(n >= 2, "C07.8-self-grant-shapes", "self-raise sites found", "-", fmt.Sprintf("%d", n), "fewer than two `grant |= ...` sites in the self-subscription handler: anchor lost")
